@@ -149,6 +149,25 @@ class Base:
                 self.report('allocate-table-differs-from-reference', site, ev,
                             missing=gone, extra=extra,
                             outcome=ctx.get('outcome'))
+            elif kind == 'filtered':
+                addressed = ctx['addressed']
+                caller = ctx.get('caller')
+                stray = [(e, o) for e, o in gone if e not in addressed]
+                others = [(e, o) for e, o in gone if e in addressed and
+                          caller is not None and o != caller]
+                if stray:
+                    self.report('release-removed-entry-not-addressed', site,
+                                ev, removed=stray, addressed=sorted(addressed),
+                                caller=caller)
+                if others:
+                    self.report('release-by-non-owner-changed-table', site,
+                                ev, removed=others, caller=caller)
+                if extra and not gone:
+                    self.report('release-by-owner-had-no-effect', site, ev,
+                                kept=extra, caller=caller)
+                if not (stray or others or (extra and not gone)):
+                    self.report('listing-differs-from-reference', site, ev,
+                                missing=gone, extra=extra)
             elif kind == 'reset':
                 # initialize() is the documented reset of the pool's OWN
                 # addresses; anything else it removes is a release by a
@@ -599,6 +618,85 @@ class SpecWorld(Base):
         return self.cfg['events']
 
 
+FSPECS = [
+    # one appname, endpoint names that are prefixes of each other, plus an
+    # appname that has the first one as a prefix
+    ('proid.a#1', 'tcp', 'http', 5000, 4242, 8000),
+    ('proid.a#1', 'tcp', 'https', 5001, 4242, 8443),
+    ('proid.a#1', 'udp', 'http', 5002, 4242, 8000),
+    ('proid.a#10', 'tcp', 'http', 5003, 4242, 8000),
+]
+FILTERS = [(None, None), ('tcp', None), ('tcp', 'http'), (None, 'http'),
+           ('udp', 'http'), ('tcp', 'https')]
+
+
+class SpecFilterWorld(Base):
+    """Real EndpointsMgr: the filtered forms of unlink_all
+    (proto= / endpoint=), with owner= (a container finishing) and without
+    (how the tickets / keytabs / nodeinfo services purge their own stale
+    specs).  Reference: a filtered unlink_all removes exactly the specs whose
+    app, proto and endpoint EQUAL the filter and, when owner= is given, whose
+    owner is the caller."""
+    KIND = 'fspec'
+
+    def __init__(self, cfg):
+        super().__init__(cfg)
+        self.owner_dir = os.path.join(self.dir, 'apps')
+        self.table_dir = os.path.join(self.dir, 'endpoints')
+        os.mkdir(self.owner_dir)
+        self.mgr = endpoints.EndpointsMgr(self.table_dir)
+        self.names = [endpoints._namify(*f) for f in FSPECS]
+        for o in cfg['owners']:
+            self.appear(o)
+
+    def apply(self, ev):
+        kind = ev[0]
+        if kind == 'create':
+            i, o = ev[1], ev[2]
+            a, p, e, rp, pid, port = FSPECS[i]
+            out = call(self.mgr.create_spec, appname=a, proto=p, endpoint=e,
+                       real_port=rp, pid=pid, port=port,
+                       owner=self.owner_path(o))
+            self.check_allocate(ev, 'EndpointsMgr.create_spec', self.names[i],
+                                o, out, own_ok=None)
+        elif kind == 'unlink_all':
+            app, proto, endpoint, o = ev[1], ev[2], ev[3], ev[4]
+            out = call(self.mgr.unlink_all, app, proto=proto,
+                       endpoint=endpoint, owner=o)
+            addressed = {n for n, f in zip(self.names, FSPECS)
+                         if f[0] == app and proto in (None, f[1]) and
+                         endpoint in (None, f[2])}
+            expected = {e: h for e, h in self.ref.items()
+                        if not (e in addressed and o in (None, h))}
+            held = [e for e in self.ref if e in addressed]
+            if held and len(self.ref) > len(held):
+                self.stats['filtered_release_next_to_unaddressed'] += 1
+            if o is None:
+                self.stats['ownerless_release'] += 1
+            elif any(self.ref[e] != o for e in held):
+                self.stats['release_by_non_owner'] += 1
+            if out[0] != 'ok':
+                self.stats['release_raised'] += 1
+            self.settle(ev, 'EndpointsMgr.unlink_all', 'filtered', expected,
+                        addressed=addressed, caller=o)
+        else:
+            raise statex.HarnessError('unknown event %r' % (ev,))
+
+    def enabled(self):
+        return self.cfg['events']
+
+
+def spec_filter_cfg(owners):
+    evs = []
+    for i in range(len(FSPECS)):
+        for o in owners:
+            evs.append(('create', i, o))
+    for proto, endpoint in FILTERS:
+        for o in [None] + list(owners):
+            evs.append(('unlink_all', 'proid.a#1', proto, endpoint, o))
+    return {'kind': 'fspec', 'owners': list(owners), 'events': evs}
+
+
 def spec_cfg(owners):
     evs = []
     for i in range(len(SPECS)):
@@ -863,7 +961,8 @@ def netsvc_cfg(cidr, n):
 
 
 WORLDS = {'vip': VipWorld, 'vips': VipPoolsWorld, 'rule': RuleWorld,
-          'spec': SpecWorld, 'netsvc': NetSvcWorld}
+          'spec': SpecWorld, 'fspec': SpecFilterWorld,
+          'netsvc': NetSvcWorld}
 
 
 class Spec(statex.Spec):
